@@ -1199,3 +1199,91 @@ def check_c11(rec: Rec, D, rnd, case):
     rec.count("mutated_invalid:" + desc.split(":")[0])
     rec.nontrivial("mut|" + desc.split(":")[0] + "|" + outcome3.split(":")[0])
     rec.check("C11:ill_formed_design_raises:" + klass, outcome3 != "accepted", case=dict(case, mutation=desc, ir=describe(D)), detail={"outcome": outcome3})
+
+
+# ------------------------------------------------------------------------------------------------------------------
+# C35: the repository's profiler process attached next to an independent observer
+def run_profiled(rec: Rec, D, A, rnd, case, cycles=150):
+    from transactron.profiler import Profile, ProfileData
+    from transactron.testing.profiler import profiler_process
+
+    try:
+        e, sim, recorder, top = build(D, "eager")
+        build_netlist(sim._design)
+    except Exception:
+        rec.count("designs_not_elaborated")
+        return
+    sim.add_clock(1e-6)
+    tm = top.transaction_manager
+    profile = Profile()
+    with DependencyContext(top.manager):
+        sim.add_process(profiler_process(tm, profile))
+        pdata, get_id = ProfileData.make(tm)
+        ids = {k: get_id(e.objs[k]._body) for k in D.bodies if k[0] == "t" or k in A.called or True}
+    T = A.T
+    bl = list(D.bodies)
+    obs = []
+
+    async def observer(ctx):
+        sigs = [e.objs[b].run for b in bl] + [e.objs[t]._body.ready for t in T] + [e.objs[t]._body.runnable for t in T]
+        async for _, _, *vals in ctx.tick().sample(*sigs):
+            obs.append([int(v) for v in vals])
+
+    async def tb(ctx):
+        pr = 0.5
+        for cyc in range(cycles):
+            if cyc % 25 == 0:
+                pr = rnd.choice([0.2, 0.5, 0.9, 0.97])
+            for s in e.bits:
+                ctx.set(s, int(rnd.random() < pr))
+            for s in e.ins:
+                ctx.set(s, rnd.randrange(16))
+            await ctx.tick()
+
+    sim.add_process(observer)
+    sim.add_testbench(tb)
+    try:
+        with DependencyContext(top.manager):
+            sim.run()
+    except Exception:
+        rec.harness_error("profiled simulation crashed: " + traceback.format_exc()[-500:])
+        return
+    nb = len(bl)
+    known = set(pdata.transactions_and_methods)
+    n = min(len(profile.cycles), len(obs))
+    rec.check("C35:one_cycle_profile_per_simulated_cycle", abs(len(profile.cycles) - len(obs)) <= 1 and n >= cycles - 1, case=case,
+              detail={"profile_cycles": len(profile.cycles), "observed_cycles": len(obs)})
+    runcnt, lockcnt = collections.Counter(), collections.Counter()
+    for cyc in range(n):
+        cp, vals = profile.cycles[cyc], obs[cyc]
+        running = {ids[b] for b, v in zip(bl, vals[:nb]) if v and ids[b] in known}
+        det = {"cycle": cyc, "profile_running": sorted(cp.running), "observed_running": sorted(running), "profile_locked": dict(cp.locked)}
+        rec.check("C35:profile_lists_exactly_the_bodies_that_ran", set(cp.running) == running, case=case, detail=det)
+        for mid, caller in cp.running.items():
+            if caller is not None:
+                rec.check("C35:running_method_has_a_running_caller", caller in running and caller in pdata.method_parents.get(mid, []), case=case, detail=dict(det, method=mid, caller=caller))
+                rec.count("method_records")
+            elif not pdata.transactions_and_methods[mid].is_transaction:
+                rec.check("C35:running_method_has_a_running_caller", False, case=case, detail=dict(det, method=mid, caller=None))
+        rdy = dict(zip(T, vals[nb:nb + len(T)]))
+        rnb = dict(zip(T, vals[nb + len(T):]))
+        for t in T:
+            i = ids[t]
+            if i in cp.running:
+                runcnt[i] += 1
+            if i in cp.locked:
+                lockcnt[i] += 1
+                rec.count("locked_transaction_cycles")
+                lk = cp.locked[i]
+                ok = bool(rdy[t] and rnb[t]) and i not in running and lk in running and lk in pdata.transaction_conflicts[i]
+                rec.check("C35:locked_only_when_ready_runnable_not_running_and_a_conflicting_transaction_ran", ok, case=case,
+                          detail=dict(det, transaction=i, locker=lk, ready=rdy[t], runnable=rnb[t], conflicts=pdata.transaction_conflicts[i]))
+            elif rdy[t] and rnb[t] and i not in running:
+                rec.count("ready_runnable_idle_without_lock_record")
+        rec.count("cycles")
+    stats = profile.analyze_transactions()
+    tids = [i for i, info in profile.transactions_and_methods.items() if info.is_transaction]
+    for i, node in zip(tids, stats):
+        rec.check("C35:run_and_locked_statistics_equal_counts_over_cycles", node.stat.run == runcnt[i] and node.stat.locked == lockcnt[i], case=case,
+                  detail={"transaction": i, "stat_run": node.stat.run, "counted_run": runcnt[i], "stat_locked": node.stat.locked, "counted_locked": lockcnt[i]})
+    rec.count("designs_profiled")
